@@ -62,14 +62,15 @@ def is_request_id(term, request_param):
 
 def check(ck):
     prog = ck.prog
-    sites = []     # (fi, node, call, kind)
+    from rules import common
+    sites = []     # (fi, node, call, kind, site)
+    for site in common.fault_sites(prog):
+        sites.append((site.fi, site.node, site.call, "Fault", site))
     for fi in prog.module_funcs(SRV):
-        for (n, c) in q.call_sites(prog, fi, lambda r, c: r == "class:jsonrpc.Fault"):
-            sites.append((fi, n, c, "Fault"))
         for (n, c) in q.call_sites(prog, fi, lambda r, c: q.is_func(r, "jsonrpc.dump")):
             v = kwarg(c, "is_response", 4)
             if v is not None:
-                sites.append((fi, n, c, "dump"))
+                sites.append((fi, n, c, "dump", None))
     ck.stat("constructor_sites", len(sites))
 
     def is_loads(r, c):
@@ -79,13 +80,13 @@ def check(ck):
         return r in ("jsonrpc.jdumps",) or (isinstance(r, str) and r.endswith("jdumps"))
 
     # ---- C03.1 -----------------------------------------------------------------
-    for (fi, n, c, kind) in sites:
+    for (fi, n, c, kind, site) in sites:
         g = cfg_of(fi)
         dom = dominators(g)
         where = q.fn(fi)
-        code = dump(c.args[0]) if (kind == "Fault" and c.args) else ""
+        code = (str(site.code()) if site is not None else "")
         label = "%s: %s(%s) " % (where, kind, code)
-        rp = kwarg(c, "rpcid", 2)
+        rp = kwarg(c, "rpcid", 2) if site is None else site.expr("rpcid", 2)
         request_param = fi.params[0] if fi.params and fi.params[0] != "self" else (fi.params[1] if len(fi.params) > 1 else None)
         # structural exemptions
         if fi.name == "do_POST":
@@ -110,7 +111,7 @@ def check(ck):
             ck.ok("C03.1", label + "[non-object entry]", "exempt: entry is not an object", q.loc(fi, n))
             continue
         if rp is not None:
-            t = prov.origin(g, n, rp)
+            t = prov.origin(g, n, rp) if site is None else site.origin("rpcid", 2)
             ck.require(is_request_id(t, request_param), "C03.1", label + "[direct]",
                        "rpcid = %s" % prov.show(t),
                        "response id is %s, not the id member of the request entry" % prov.show(t), q.loc(fi, n))
